@@ -302,7 +302,10 @@ static void ar_init(void) {
     ar_top[z] = 0;
   }
 }
+static void bp_reset(void);
+extern bool AR_bump_mode;
 void ar_reset(void) {
+  if (AR_bump_mode) { bp_reset(); AR_live = 0; return; }
   ar_init();
   ar_freeze(false);
   for (int z = 0; z < 2; z++) {
@@ -394,7 +397,73 @@ static void* ar_realloc(void* p, size_t n) {
   ar_free(p);
   return q;
 }
-void ar_install(void) { ar_init(); cbor_set_allocs(ar_malloc, ar_realloc, ar_free); }
+
+/* ---- header-less placement ("bump" mode of the arena) ----
+ * Blocks are laid out back to back with no in-band header and no red zone, sizes rounded to 16: a block obtained right
+ * after another starts exactly where the other ends, as with size-class or region allocators. Sizes and liveness live in
+ * a side table. Code that infers ownership from addresses ("the data follows the item, so it is part of it") only
+ * misbehaves under such a placement policy. */
+bool AR_bump_mode;
+static uint8_t* bp_base;
+static size_t bp_off;
+#define BP_BYTES ((size_t)1 << 30)
+struct bp_ent { uint32_t off, size; uint8_t live; };
+static struct bp_ent* bp_tab;
+static size_t bp_n, bp_cap;
+static struct bp_ent* bp_find(const void* p) {
+  if (!bp_base || (const uint8_t*)p < bp_base || (const uint8_t*)p >= bp_base + bp_off) return NULL;
+  uint32_t off = (uint32_t)((const uint8_t*)p - bp_base);
+  size_t lo = 0, hi = bp_n;
+  while (lo < hi) { size_t mid = (lo + hi) / 2; if (bp_tab[mid].off < off) lo = mid + 1; else hi = mid; }
+  return lo < bp_n && bp_tab[lo].off == off ? &bp_tab[lo] : NULL;
+}
+static void bp_reset(void) { bp_off = 0; bp_n = 0; }
+static void* bp_malloc(size_t n) {
+  if (!bp_base) { bp_base = mmap(NULL, BP_BYTES, PROT_READ | PROT_WRITE, MAP_PRIVATE | MAP_ANONYMOUS | MAP_NORESERVE, -1, 0); if (bp_base == MAP_FAILED) vh_die("bump arena: mmap failed"); }
+  if (AR_refuse_all) { AR_refused++; return NULL; }
+  if (n > AR_cap) return NULL;
+  size_t sz = (n + 15) & ~(size_t)15;
+  if (sz == 0) sz = 16;
+  if (bp_off + sz > BP_BYTES) return NULL;
+  if (!bp_tab) { /* the side table is a lazily touched mapping of its own: nothing here goes through the C library's allocator */
+    bp_cap = (size_t)16 << 20;
+    bp_tab = mmap(NULL, bp_cap * sizeof *bp_tab, PROT_READ | PROT_WRITE, MAP_PRIVATE | MAP_ANONYMOUS | MAP_NORESERVE, -1, 0);
+    if (bp_tab == MAP_FAILED) vh_die("bump arena: mmap of the side table failed");
+  }
+  if (bp_n == bp_cap) return NULL;
+  void* p = bp_base + bp_off;
+  bp_tab[bp_n++] = (struct bp_ent){(uint32_t)bp_off, (uint32_t)n, 1};
+  bp_off += sz;
+  if (n) memset(p, 0xD5, n);
+  AR_allocs++; AR_live++;
+  return p;
+}
+static void bp_free(void* p) {
+  if (!p) return;
+  struct bp_ent* e = bp_find(p);
+  if (!e || !e->live) {
+    AR_foreign_free++;
+    vh_violation("free-of-foreign-block", "configured free received %p which %s", p, !e ? "is not the start of a block of the configured allocator" : "is not a live block (double release)");
+    return;
+  }
+  e->live = 0;
+  if (e->size) memset(p, 0xDD, e->size);
+  AR_frees++; AR_live--;
+}
+static void* bp_realloc(void* p, size_t n) {
+  if (AR_refuse_all) { AR_refused++; return NULL; }
+  if (!p) return bp_malloc(n);
+  struct bp_ent* e = bp_find(p);
+  if (!e || !e->live) { AR_foreign_free++; vh_violation("realloc-of-foreign-block", "configured realloc received %p which is not a live block of the configured allocator", p); return NULL; }
+  uint32_t osz = e->size;
+  void* q = bp_malloc(n); /* may move the side table: e is stale from here on */
+  if (!q) return NULL;
+  memcpy(q, p, osz < n ? osz : n);
+  bp_free(p);
+  return q;
+}
+
+void ar_install(void) { if (AR_bump_mode) { cbor_set_allocs(bp_malloc, bp_realloc, bp_free); return; } ar_init(); cbor_set_allocs(ar_malloc, ar_realloc, ar_free); }
 
 /* ======================================================================= tsafe */
 __thread uint64_t TS_allocs, TS_frees;
